@@ -20,9 +20,11 @@ import (
 	"errors"
 	"fmt"
 	"math/rand"
+	"runtime"
 	"strconv"
 	"strings"
 	"sync"
+	"sync/atomic"
 	"time"
 
 	"github.com/ThreeDotsLabs/watermill"
@@ -88,6 +90,7 @@ type c01Case struct {
 	Quiet  bool           `json:"quiet"`
 	NotRun bool           `json:"not_run"`
 	Notes  []string       `json:"notes"`
+	Dump   string         `json:"dump,omitempty"` // goroutine dump taken when the case stalled
 
 	mu       sync.Mutex
 	calls    []int
@@ -95,6 +98,7 @@ type c01Case struct {
 	acked    []int // per stage: deliveries acked
 	srcOpen  int
 	lastEv   time.Time
+	lastTick int64 // value of c01Ticks at the last event
 	done     chan struct{}
 	wg       sync.WaitGroup
 }
@@ -146,7 +150,18 @@ func c01Read(msg *message.Message) c01Msg {
 	return m
 }
 
-func (c *c01Case) touch() { c.lastEv = time.Now() }
+// c01Ticks is advanced every millisecond by a probe goroutine.  Idle time is measured in
+// probe ticks AND wall-clock: when the whole process is starved or the VM is paused the ticks
+// stop as well, so a frozen machine is never mistaken for a stuck pipeline.
+var c01Ticks int64
+
+func (c *c01Case) touch() { c.lastEv = time.Now(); c.lastTick = atomic.LoadInt64(&c01Ticks) }
+
+func (c *c01Case) note(s string) {
+	c.mu.Lock()
+	c.Notes = append(c.Notes, s)
+	c.mu.Unlock()
+}
 
 func (c *c01Case) fan(stage, lin int) int {
 	if stage >= len(c.Fans) || len(c.Fans[stage]) == 0 {
@@ -453,6 +468,9 @@ func c01Run(rt *hookrt.Runtime, c *c01Case, stall time.Duration) {
 		c.mu.Lock()
 		q := c.quiescent()
 		idle := time.Since(c.lastEv)
+		if ticks := time.Duration(atomic.LoadInt64(&c01Ticks)-c.lastTick) * time.Millisecond; ticks < idle {
+			idle = ticks
+		}
 		c.mu.Unlock()
 		if q {
 			// settle: a short grace period, then it must still hold with unchanged counts
@@ -469,6 +487,8 @@ func c01Run(rt *hookrt.Runtime, c *c01Case, stall time.Duration) {
 		if idle > stall {
 			c.mu.Lock()
 			c.Notes = append(c.Notes, fmt.Sprintf("stalled: srcOpen=%d accepted=%v acked=%v sink=%d calls=%v", c.srcOpen, c.accepted, c.acked, len(c.Sink), c.calls))
+			buf := make([]byte, 1<<20)
+			c.Dump = string(buf[:runtime.Stack(buf, true)])
 			c.mu.Unlock()
 			break
 		}
@@ -477,10 +497,28 @@ func c01Run(rt *hookrt.Runtime, c *c01Case, stall time.Duration) {
 	if c.Quiet {
 		pwg.Wait()
 	}
-	// teardown
+	// teardown (in its own goroutine: a hung teardown must not hang the harness)
+	tdDone := make(chan struct{})
+	go func() {
+		defer close(tdDone)
+		c.teardown(routers, cancel, runErrs, sinkCancel, pss, sinkDone)
+	}()
+	select {
+	case <-tdDone:
+	case <-time.After(30 * time.Second):
+		c.mu.Lock()
+		c.Notes = append(c.Notes, "teardown hung")
+		c.Quiet = false
+		c.mu.Unlock()
+	}
+	c.mu.Lock()
+	defer c.mu.Unlock()
+}
+
+func (c *c01Case) teardown(routers []*message.Router, cancel context.CancelFunc, runErrs chan error, sinkCancel context.CancelFunc, pss []*gochannel.GoChannel, sinkDone chan struct{}) {
 	for _, r := range routers {
 		if err := r.Close(); err != nil && c.Quiet {
-			c.Notes = append(c.Notes, "router close: "+err.Error())
+			c.note("router close: " + err.Error())
 		}
 	}
 	cancel()
@@ -489,7 +527,7 @@ func c01Run(rt *hookrt.Runtime, c *c01Case, stall time.Duration) {
 		case <-runErrs:
 		case <-time.After(5 * time.Second):
 			if c.Quiet {
-				c.Notes = append(c.Notes, "Run did not return after Close")
+				c.note("Run did not return after Close")
 			}
 		}
 	}
@@ -503,9 +541,6 @@ func c01Run(rt *hookrt.Runtime, c *c01Case, stall time.Duration) {
 	}
 	close(c.done)
 	c.wg.Wait()
-	// order the log by handler entry (it is appended in that order already) and freeze it
-	c.mu.Lock()
-	defer c.mu.Unlock()
 }
 
 func c01RandFault(rng *rand.Rand, maxFan int) c01Fault {
@@ -526,7 +561,7 @@ func c01Gen(rng *rand.Rand, id int, big bool) *c01Case {
 	c := &c01Case{ID: id, Kind: "random"}
 	c.K = 1 + rng.Intn(4)
 	c.NSrc = []int{1, 1, 2, 3, 5, 8, 13, 20}[rng.Intn(8)]
-	if !big && c.NSrc > 8 {
+	if !big && c.NSrc > 8 && rng.Intn(3) != 0 {
 		c.NSrc = 1 + rng.Intn(8)
 	}
 	c.Publishers = 1 + rng.Intn(3)
@@ -539,6 +574,12 @@ func c01Gen(rng *rand.Rand, id int, big bool) *c01Case {
 	c.PanicVal = rng.Intn(3)
 	if c.Persistent {
 		c.Early = rng.Intn(c.NSrc + 1)
+	}
+	if c.Blocking && c.SharedPS {
+		// D9 (known finding, property C05): with blocking Publish a consumer that publishes to the
+		// same GoChannel before acking deadlocks behind a pending Subscribe.  Messages replayed
+		// while the later handlers are still subscribing would be exactly that; excluded here.
+		c.Early = 0
 	}
 	// fan-out: mostly 1, some 2, rarely 0 or 3; keep the total number of sink arrivals small
 	budget := 3
@@ -658,6 +699,12 @@ func cmdC01(args []string) error {
 	rng := rand.New(rand.NewSource(*seed))
 	rt := hookrt.Install(*seed)
 	defer hookrt.Uninstall()
+	go func() { // probe + keep-alive: a deadlocked pipeline is reported by the stall watchdog, not by a runtime abort
+		for {
+			time.Sleep(time.Millisecond)
+			atomic.AddInt64(&c01Ticks, 1)
+		}
+	}()
 	var cases []*c01Case
 	id := 0
 	if *singles {
